@@ -621,6 +621,20 @@ func runLockAtomic(c *core.Ctx) {
 					}
 				})
 			}
+			if !touchesIndex(fn) {
+				// …or hands the work as a closure to a wrapper that runs it under the lock (mr.withLock(func() {…}))
+				var inner *ssa.Function
+				n := 0
+				for _, af := range fn.AnonFuncs {
+					if touchesIndex(af) {
+						inner = af
+						n++
+					}
+				}
+				if n == 1 {
+					fn = inner
+				}
+			}
 			an.Calls(fn, func(call ssa.CallInstruction) {
 				if _, isDefer := call.(*ssa.Defer); isDefer {
 					return
